@@ -2,7 +2,7 @@
 # usage: seedverify2.sh <Cxx> [k]   -- verifies /tmp/seedout/<Cxx> in a fresh scratch worktree of /repo HEAD and, if everything
 # holds (applies, builds, upstream suite passes with it, demo fails with it and passes without), keeps it as seeded/<Cxx>/<k>/
 ID=$1; K=${2:-4}
-SRC=/tmp/seedout/$ID
+SRC=${SEEDSRC:-/tmp/seedout}/$ID
 export GOFLAGS=-mod=mod GOPROXY=off GOSUMDB=off GOTOOLCHAIN=local
 WT=/tmp/sv.wt.$ID.$$
 [ -f $SRC/patch.diff ] && [ -f $SRC/meta.json ] || { echo "$ID: no delivery"; exit 3; }
